@@ -17,6 +17,14 @@ From Verif Require Import Gen.BigIntRoutines.
 Import ListNotations.
 Local Open Scope Z_scope.
 
+(* The external functions are never unfolded by the proofs below; keeping them
+   opaque for the tactics makes a FAILING comparison (after an edit of the Go
+   code) fail fast instead of normalising Fermat inversions or Tonelli-Shanks
+   on symbolic arguments. *)
+Local Opaque BabyJub.modinv BabyJub.modsqrt BabyJub.Mul BabyJub.Affine BabyJub.Projective
+  Mimc7.MIMC7Hash HadesOpt.perm_opt Z.mul Z.add Z.sub Z.modulo Z.shiftr Z.shiftl Z.land Z.lor
+  Z.ltb Z.gtb Z.geb Z.eqb.
+
 (* ---- package utils -------------------------------------------------------- *)
 
 Lemma gen_utils_CheckBigIntInField_eq : forall a,
@@ -419,6 +427,24 @@ Proof.
   eapply HexDecodeInto_length; exact E.
 Qed.
 
+(* database/sql/driver Value(): (compressed bytes, nil) *)
+Lemma gen_babyjub_SignatureComp_Value_eq : forall c, babyjub_SignatureComp_Value c = Ok c.
+Proof. reflexivity. Qed.
+Lemma gen_babyjub_PublicKeyComp_Value_eq : forall c, babyjub_PublicKeyComp_Value c = Ok c.
+Proof. reflexivity. Qed.
+Lemma gen_babyjub_Signature_Value_eq : forall s,
+  babyjub_Signature_Value s = Ok (Eddsa.SigValue s).
+Proof.
+  intros. unfold babyjub_Signature_Value, Eddsa.SigValue. cbv zeta.
+  rewrite gen_babyjub_Signature_Compress_eq. reflexivity.
+Qed.
+Lemma gen_babyjub_PublicKey_Value_eq : forall pk,
+  babyjub_PublicKey_Value pk = Ok (Eddsa.PkValue pk).
+Proof.
+  intros. unfold babyjub_PublicKey_Value, Eddsa.PkValue. cbv zeta.
+  rewrite gen_babyjub_PublicKey_Compress_eq. reflexivity.
+Qed.
+
 (* ---- package mimc7: the guard and the initial value of Hash --------------- *)
 
 (* the model of the part bigintgen does not translate (the loop of Hash) *)
@@ -539,6 +565,10 @@ Print Assumptions gen_babyjub_PublicKeyComp_UnmarshalText_eq.
 Print Assumptions gen_babyjub_SignatureComp_UnmarshalText_eq.
 Print Assumptions gen_babyjub_PublicKey_UnmarshalText_eq.
 Print Assumptions gen_babyjub_DecompressSig_eq.
+Print Assumptions gen_babyjub_SignatureComp_Value_eq.
+Print Assumptions gen_babyjub_PublicKeyComp_Value_eq.
+Print Assumptions gen_babyjub_Signature_Value_eq.
+Print Assumptions gen_babyjub_PublicKey_Value_eq.
 Print Assumptions gen_mimc7_Hash_eq.
 Print Assumptions gen_poseidon_HashWithStateEx_eq.
 Print Assumptions gen_poseidon_HashWithState_eq.
